@@ -682,7 +682,8 @@ def evaluate(c):
     if s == "hdr":
         r = eval_hdr(c)
         r["d_impl"] = ax.diff(r["real"], r["impl"])
-        r["d_spec"] = r["specerr"] or ax.diff(r["real"], r["spec"])
+        # the round trip (the property statement) first; the token-level layout of the headers second
+        r["d_spec"] = ax.diff(r["real"], r["spec"]) or r["specerr"]
         r["inst"] = r["impl"] != r["spec"]
         return r
     if s in ("center", "vector", "adds"):
